@@ -999,5 +999,31 @@ pub fn all() -> Vec<Witness> {
             case: case_of(main, vec![], b"", vec![short, hard]),
         });
     }
+    // ---- GOSUB of the handler left behind by RESUME ----
+    {
+        let mut b = B(0);
+        let main = vec![
+            b.s(StmtKind::OnErrorGoto("H1".into())),
+            b.s(StmtKind::Fail(FailKind::DivZero)),
+            b.trace("after"),
+            b.s(StmtKind::Return(None)),
+            b.trace("after the stray RETURN"),
+            b.s(StmtKind::End),
+            b.s(StmtKind::Label("H1".into())),
+            b.print(Dev::Screen, vec![e(lit("H")), PItem::Semi, e(Expr::Err)]),
+            b.s(StmtKind::Gosub("HG1".into())),
+            b.trace("never"),
+            b.s(StmtKind::Label("HG1".into())),
+            b.s(StmtKind::Resume(ResumeKind::Next)),
+        ];
+        out.push(Witness {
+            name: "fixed-gosub-of-the-handler-left-behind-by-resume",
+            property: "C05",
+            class: "ControlFlow",
+            key: "",
+            what: "a handler that GOSUBs and RESUMEs from inside the routine left the return address on the GOSUB stack: a later stray RETURN of the program jumped into the handler instead of raising error 3",
+            case: case_of(main, vec![], b"", vec![]),
+        });
+    }
     out
 }
